@@ -131,10 +131,10 @@ def build_props(PROPS):
         explanation='frame (assigns) obligations of the library functions discharged by CBMC/DFCC + symbol-table scan for mutable static-lifetime objects; schedule quantifier by meta-argument only',
         trusted_base=TB_COMMON, technique='CBMC/DFCC frame conditions (assigns clauses) + goto symbol table scan; no interleaving semantics')
     PROPS['C17'] = dict(
-        level='proof', quick=ALL(['lemma_local', 'options_scan', 'is_6531_local+rfc20', 'is_ascii_domain+underscore']),
+        level='proof', quick=ALL(['lemma_local', 'options_scan', 'is_6531_local+rfc20', 'is_ascii_domain+underscore', 'is_6531_local+rfc5322']),
         thorough=ALL(['is_6531_local', 'is_ascii_domain']),
-        level_text='RFC6531_FOLLOW_RFC20: is_6531_local built with the option is proved equal to the automaton whose atom alphabet lacks # ^ ` { | } ~, and a lemma proves that this automaton differs from the default one exactly on those seven characters outside quotes. LABELS_ALLOW_UNDERSCORE: is_ascii_domain built with the option is proved equal to the host automaton with "_" as a letter. "Nothing else changes": the option macros occur in no other source file, and the Makefile defaults them OFF / maps ON to -D (text scan).',
-        level_note='RFC6531_FOLLOW_RFC5322 (mode 6531 judges ASCII local parts as mode 5322) is NOT covered: no job proves the scanner built with that option against the 5322 automaton. The option / Makefile facts are text scans, not proof obligations.',
+        level_text='RFC6531_FOLLOW_RFC20: is_6531_local built with the option is proved equal to the automaton whose atom alphabet lacks # ^ ` { | } ~, and a lemma proves that this automaton differs from the default one exactly on those seven characters outside quotes. LABELS_ALLOW_UNDERSCORE: is_ascii_domain built with the option is proved equal to the host automaton with "_" as a letter. RFC6531_FOLLOW_RFC5322: is_6531_local built with the option is proved to follow, as long as only ASCII characters have been read, the RFC 5322 specification automaton that is_5322_local is proved against (both directions, every length), and to accept only input that is well-formed UTF-8 throughout. "Nothing else changes": the option macros occur in no other source file, and the Makefile defaults them OFF / maps ON to -D (text scan).',
+        level_note='RFC6531_FOLLOW_RFC5322: what the option does to local parts that contain non-ASCII characters (quoted whitespace next to them, control characters in quotes) is not specified by the contract beyond UTF-8 well-formedness. The option / Makefile facts are text scans, not proof obligations. Combinations of options are not run (the three options touch disjoint #ifdef regions; RFC20 and RFC5322 both act in is_6531_local: the RFC20 cases sit in the unquoted switch, the RFC5322 ones in the quoted branch and the control-character test).',
         trusted_base=TB_COMMON, technique=TECH)
     NOT_APPLICABLE['C20'] = ('not claimed: only sanitize_utf8 (bin/main.h) has a discharged contract (job cli_sanitize: no write outside the buffer for any text, clean text echoed unchanged); '
                             'the getline loop of parse_file (bin/main.c) could not be brought within reach - the loop-contract job with stdio/getline/strlen models and a bounded stand-in (2 lines x 4 bytes) both exhausted 12-24 GB '
